@@ -1,8 +1,8 @@
 // Package sync is the simulator's stand-in for sync in transformed Zn packages. Everything
 // but Pool is the real thing (type aliases, so lock tracking and method sets are unchanged).
 // Pool is modelled: the real one hands out objects depending on which P a goroutine runs on
-// and on GC timing, neither of which a run may depend on. Inside a world a Pool is a LIFO
-// stack owned by that world — Get returns the most recently Put object if there is one —
+// and on GC timing, neither of which a run may depend on. Inside a world a Pool is a stack
+// owned by that world (LIFO; under tape-chosen iteration orders the choice is drawn) — Get returns the most recently Put object if there is one —
 // which is one of the behaviours the real Pool may show and the one that makes a misuse
 // (an object put back twice, or used after it was put back) visible soonest.
 package sync
@@ -49,8 +49,28 @@ func (p *Pool) Get() interface{} {
 	if w := zsim.W; w != nil {
 		st := p.state(w)
 		if n := len(st.free); n > 0 {
-			x := st.free[n-1]
-			st.free = st.free[:n-1]
+			// which pooled object comes back — or none, because a collection emptied the pool — is
+			// nothing a program may depend on: under tape-chosen iteration orders it is drawn too
+			// (the canonical run keeps the LIFO choice)
+			i := n - 1
+			const site = "sync.Pool-choice" // treated like one more iteration-order site (attribution)
+			w.MapHits[site]++
+			if w.MapMode == zsim.MapTape && (w.MapOnly == nil || w.MapOnly[site]) {
+				w.MapPermute[site]++
+				switch w.T.Draw(3) {
+				case 1:
+					st.free = nil
+					w.Probes["pool-emptied-by-collection"]++
+					if p.New != nil {
+						return p.New()
+					}
+					return nil
+				case 2:
+					i = w.T.Draw(n)
+				}
+			}
+			x := st.free[i]
+			st.free = append(st.free[:i], st.free[i+1:]...)
 			w.Probes["pool-get-reused"]++
 			return x
 		}
